@@ -81,6 +81,21 @@ CHECKS = {
         'The identities proved are about the same model rows that are compared with the real operator on every run.',
    note='Trusted: Coq kernel; R axioms; K-matrix of C03.',
    design='5/C02'),
+ 'C06': dict(
+   technique='Coq proof over a relational block Gauss-Seidel specification (induction over the block list: fixed point, zero residual on the last colour, Dirichlet data; colour independence of radial lines from the columns of A) + exact-rational K-affine correspondence of both real smoothers with per-block certification',
+   text='For any operator with local rows, any block list, grid and data: a sweep fixes the exact solution (given unique line systems), leaves zero '
+        'residual on every block of the colour updated last when same-colour blocks are independent, and gives Dirichlet nodes the data; for A '
+        'the white radial lines are proved independent for every ntheta = 2Mc >= 4. SmootherGive and SmootherTake are compared sweep by sweep '
+        '(unit iterates, unit right-hand sides, random pairs) with the model evaluated in exact rationals, each block update certified exactly.',
+   note='Partial: line-system uniqueness is a premise; energy monotonicity not proved. Trusted: Coq kernel, R axioms for the A instance, hand model SmootherDefs.v tied by K-affine, extraction (ExtrOcamlBasic + ExtrOcamlZBigInt + our Z.gcd/Z.ggcd directives).',
+   design='5/C06'),
+ 'C07': dict(
+   technique='Coq proof (frame theorem for block Gauss-Seidel over any value type: nodes in no block are returned unchanged; the extrapolated blocks contain no coarse node) + exact-rational K-affine correspondence + bitwise comparison of coarse nodes on the implementation',
+   text='The coarse-node invariance is a theorem for every grid size, operator and value type (no arithmetic law used, hence bit for bit); fixed point and '
+        'zero fine-only residual on the last colour as in C06. Both real extrapolated smoothers are compared sweep by sweep with the model in exact '
+        'rationals (certified block updates) and their outputs at (even, even) nodes are compared bitwise with the input.',
+   note='Trusted: Coq kernel, hand model tied by K-affine, extraction. Block uniqueness is a premise of the fixed-point theorem.',
+   design='5/C07'),
 }
 NA_REASON = 'check not built yet in this revision of /verif (design in DESIGN.md section 5); not claimed'
 
